@@ -30,7 +30,7 @@ def mc_all(ctx, q):
     for n, num, df, sf, em in ((3, 2, 0, 0, "{}"), (4, 2, 2, 0, "{}"), (4, 2, 0, 3, "{2}"), (3, 2, 0, 4, "{}"), (0, 2, 0, 0, "{}"), (3, 2, 0, 0, "{3}"), (4, 2, 3, 0, "{2}")) + \
             (() if q else ((5, 2, 3, 0, "{}"), (4, 3, 4, 0, "{1}"), (5, 3, 1, 4, "{}"), (6, 2, 0, 0, "{6}"))):
         cfg = ("SPECIFICATION Spec\nCONSTANTS\n  N = %d\n  Num = %d\n  DecodeFailAt = %d\n  SourceFailAt = %d\n  EmptyBlocks = %s\nINVARIANTS\n  Ordered\n  FinalResult\n"
-               "  NoGoroutineLeft\nPROPERTY EventuallyAllDone\n" % (n, num, df, sf, em))
+               "  NoGoroutineLeft\n  DeliveredBeforeError\nPROPERTY EventuallyAllDone\n" % (n, num, df, sf, em))
         ctx.mc("PipelineR", cfg_text=cfg, timeout=1800)
 
 
@@ -103,6 +103,24 @@ def make_cases(ctx, rnd):
         if i % 6 == 0:
             c["slowio"] = rnd.choice([50, 300])
         cases.append(c)
+    # a block that decodes to nothing (token 0x00) in the middle of the stream, valid blocks after it, then a block that
+    # cannot be decoded, and a slow consumer: the decoding error is latched before the consumer sees the empty block
+    # (TLC's counterexample to NoGoroutineLeft before fix 062dfed, D25)
+    for i in range(24 if q else 400):
+        conc = [3, 4, 16][i % 3]
+        nb = rnd.choice([4, 5, 6, 8])
+        e = rnd.randrange(1, nb - 1)
+        f = rnd.randrange(e + 2, nb + 1)
+        at = 7 + (e - 1) * (4 + B)
+        bad = 7 + 5 + (f - 1) * (4 + B)
+        ops = [[7, at, 1, 0, 0, 0, 0], [3, bad + 3, 0], [3, bad + 4, 0], [3, bad + 5, 0], [3, bad + 6, 0]]
+        if i % 4 == 3:
+            ops = ops[:1]                      # the empty block alone: a clean stream
+        cases.append({"id": len(cases) + 1, "kind": "reader", "input": {"family": "random", "len": nb * B, "seed": i},
+                      "opts": {"code": 4, "bcs": False, "ccs": True, "level": 0, "conc": 1, "legacy": False, "handler": False},
+                      "cfg": {"conc": conc, "mode": ["read", "writeto"][i % 2], "bufs": [rnd.choice([4096, B, 1000])],
+                              "prime": rnd.choice([0, 500, 5000, 30000])},
+                      "ops": ops, "seed": ctx.seed * 1000 + 900 + i, "perturb": rnd.choice([0, 10, 40]), "poison": True})
     return cases
 
 
